@@ -15,6 +15,7 @@ package keeper
 // C05: DequeueDE returns the head of the queue, removes exactly that entry and advances Head;
 // everything else in the store is untouched (the postcondition gives the whole new store).
 //@ func (k Keeper) DequeueDE
+//@ modifies Store_tss
 //@ requires wfDE(Store_tss, address)
 //@ ensures  err == nil <==> old(DEQ(Store_tss, address).Head < DEQ(Store_tss, address).Tail)
 //@ ensures  err == nil ==> result == old(DEat(Store_tss, address, DEQ(Store_tss, address).Head))
@@ -23,3 +24,97 @@ package keeper
 //@                                        enc(types.DEQueue{old(DEQ(Store_tss, address).Head) + 1, old(DEQ(Store_tss, address).Tail)}))
 //@ ensures  err != nil ==> Store_tss == old(Store_tss)
 //@ ensures  err == nil ==> wfDE(Store_tss, address)
+
+// ---- C04: round-3 confirmation ------------------------------------------------------------------
+//@ spec groupAt(s Store, g Int) types.Group = dec(types.Group, s[types.GroupStoreKey(g)])
+//@ spec memberAt(s Store, g Int, m Int) types.Member = dec(types.Member, s[types.MemberStoreKey(g, m)])
+//@ spec ccCount(s Store, g Int) Int = u64of(s[types.ConfirmComplainCountStoreKey(g)])
+
+// A confirmation is accepted only in round 3, only from the registered address of that member id, only
+// once per member (neither a confirm nor a complaint already recorded) and only with a valid own-key
+// signature; it records the confirm and bumps the counter by exactly one; a rejection changes nothing.
+//@ func (k msgServer) Confirm
+//@ modifies Store_tss
+//@ ensures err == nil ==> old(has(Store_tss, types.GroupStoreKey(req.GroupID))) && old(groupAt(Store_tss, req.GroupID)).Status == types.GROUP_STATUS_ROUND_3
+//@ ensures err == nil ==> old(has(Store_tss, types.MemberStoreKey(req.GroupID, req.MemberID))) && old(memberAt(Store_tss, req.GroupID, req.MemberID)).Address == req.Sender
+//@ ensures err == nil ==> !old(has(Store_tss, types.ConfirmStoreKey(req.GroupID, req.MemberID)))
+//@ ensures err == nil ==> !old(has(Store_tss, types.ComplainsWithStatusStoreKey(req.GroupID, req.MemberID)))
+//@ ensures err == nil ==> has(Store_tss, types.ConfirmStoreKey(req.GroupID, req.MemberID))
+//@ ensures err == nil && old(ccCount(Store_tss, req.GroupID)) < MaxUint64 ==> ccCount(Store_tss, req.GroupID) == old(ccCount(Store_tss, req.GroupID)) + 1
+//@ ensures err != nil ==> Store_tss == old(Store_tss)
+
+//@ spec tssParams(s Store) types.Params = has(s, types.ParamsKey) ? dec(types.Params, s[types.ParamsKey]) : zero(types.Params)
+
+// C05: a submission that would raise the queued count above MaxDESize is rejected without effect;
+// an accepted one appends exactly the submitted DEs, in order, after the current tail, and touches no
+// other key of the store.
+//@ func (k Keeper) EnqueueDEs
+//@ modifies Store_tss
+//@ requires wfDE(Store_tss, address)
+//@ requires DEQ(Store_tss, address).Tail + len(des) <= MaxUint64
+//@ ensures  err == nil <==> old(DEQ(Store_tss, address).Tail - DEQ(Store_tss, address).Head) + len(des) <= old(tssParams(Store_tss)).MaxDESize
+//@ ensures  err != nil ==> Store_tss == old(Store_tss)
+//@ ensures  err == nil ==> DEQ(Store_tss, address) == types.DEQueue{old(DEQ(Store_tss, address).Head), old(DEQ(Store_tss, address).Tail) + len(des)}
+//@ ensures  err == nil ==> (forall j :: 0 <= j && j < len(des) ==> DEat(Store_tss, address, old(DEQ(Store_tss, address).Tail) + j) == des[j])
+//@ ensures  err == nil ==> wfDE(Store_tss, address)
+//@ ensures  err == nil ==> (forall q Bz :: q != types.DEQueueStoreKey(address)
+//@               && !(iskey(types.DEStoreKey, q) && keyarg(types.DEStoreKey, q, 0) == address
+//@                    && old(DEQ(Store_tss, address).Tail) <= keyarg(types.DEStoreKey, q, 1)
+//@                    && keyarg(types.DEStoreKey, q, 1) < old(DEQ(Store_tss, address).Tail) + len(des))
+//@               ==> Store_tss[q] == old(Store_tss)[q])
+//@ loop 0: invariant forall q Bz :: Store_tss[q] ==
+//@               ((iskey(types.DEStoreKey, q) && keyarg(types.DEStoreKey, q, 0) == address
+//@                 && deQueue.Tail <= keyarg(types.DEStoreKey, q, 1) && keyarg(types.DEStoreKey, q, 1) < deQueue.Tail + #i)
+//@                ? enc(des[keyarg(types.DEStoreKey, q, 1) - deQueue.Tail]) : old(Store_tss)[q])
+
+// ---- C10 / C03 / C05: end-block handling of signings ---------------------------------------------------
+//@ spec signingAt(s Store, id Int) types.Signing = dec(types.Signing, s[types.SigningStoreKey(id)])
+//@ spec attemptAt(s Store, id Int, n Int) types.SigningAttempt = dec(types.SigningAttempt, s[types.SigningAttemptStoreKey(id, n)])
+//@ spec psigCount(s Store, id Int, n Int) Int = u64of(s[types.PartialSignatureCountStoreKey(id, n)])
+//@ spec pendingSids(s Store) []tss.SigningID = len(s[types.PendingSigningsStoreKey]) == 0 ? zero("[]tss.SigningID") : dec(types.PendingProcessSignings, s[types.PendingSigningsStoreKey]).SigningIDs
+// a signing is ready for aggregation: it exists and every member assigned in its current attempt has
+// submitted (interim data of that attempt is still in the store)
+//@ spec readySigning(s Store, id Int) Bool = has(s, types.SigningStoreKey(id)) && signingAt(s, id).ID == id
+//@      && has(s, types.SigningAttemptStoreKey(id, signingAt(s, id).CurrentAttempt))
+//@      && psigCount(s, id, signingAt(s, id).CurrentAttempt) == len(attemptAt(s, id, signingAt(s, id).CurrentAttempt).AssignedMembers)
+// store invariant of the pending list: duplicate-free, every entry ready
+//@ spec wfPending(s Store) Bool = (forall i :: 0 <= i && i < len(pendingSids(s)) ==> readySigning(s, pendingSids(s)[i]))
+//@      && (forall i, j :: 0 <= i && i < j && j < len(pendingSids(s)) ==> pendingSids(s)[i] != pendingSids(s)[j])
+
+// Aggregation is to be run on a signing whose current attempt is complete and still has its interim
+// data; it touches only that signing's record (plus the owner's callback) and nothing on failure.
+//@ func (k Keeper) AggregatePartialSignatures
+//@ trusted
+//@ modifies Store_tss, Other, Bank
+//@ requires readySigning(Store_tss, signingID)
+//@ ensures  forall q Bz :: q != types.SigningStoreKey(signingID) ==> Store_tss[q] == old(Store_tss)[q]
+//@ ensures  err != nil ==> Store_tss == old(Store_tss) && Other == old(Other) && Bank == old(Bank)
+//@ ensures  err == nil ==> signingAt(Store_tss, signingID).Status == types.SIGNING_STATUS_SUCCESS
+
+//@ func (k Keeper) HandleExpiredSignings
+//@ trusted
+//@ modifies Store_tss, Other, Bank
+//@ ensures  Store_tss[types.PendingSigningsStoreKey] == old(Store_tss)[types.PendingSigningsStoreKey]
+
+// A new signing round may leave partial writes in its context when it fails, so it must be run in an
+// isolated cache context (one with no other uncommitted writes) that the caller discards on error.
+//@ func (k Keeper) InitiateNewSigningRound
+//@ trusted
+//@ modifies Store_tss
+//@ requires isolated(ctx)
+//@ ensures  Store_tss[types.PendingSigningsStoreKey] == old(Store_tss)[types.PendingSigningsStoreKey]
+
+//@ func (k Keeper) HandleFailedSigning
+//@ trusted
+//@ modifies Store_tss, Other, Bank
+//@ ensures  Store_tss[types.PendingSigningsStoreKey] == old(Store_tss)[types.PendingSigningsStoreKey]
+
+// End block: every signing in the pending list is aggregated while its interim data is still present
+// (i.e. before expiry handling), the list is emptied, and each retry runs in its own isolated cache context.
+//@ func (k Keeper) HandleSigningEndBlock
+//@ modifies Store_tss, Other, Bank
+//@ requires wfPending(Store_tss)
+//@ ensures  len(pendingSids(Store_tss)) == 0
+//@ loop 0: invariant forall j :: #i <= j && j < len(sids) ==> readySigning(Store_tss, sids[j])
+//@ loop 0: invariant forall a, b :: 0 <= a && a < b && b < len(sids) ==> sids[a] != sids[b]
+//@ loop 1: invariant len(pendingSids(Store_tss)) == 0
